@@ -196,6 +196,24 @@ def one(ctx, core, shape, method, n, order, full_output, rule_as=None):
         else:
             rep.undecided(rid('R-COLSEP'), construct, exc, label)
         return
+    except AnalysisError as exc:
+        # the run could not be completed.  If a call of the user function recorded so far did not get the extra arguments of
+        # the call in their places (a marker object where x belongs, x where the marker belongs), that is the finding - and
+        # quite possibly the reason why the rest could not be interpreted
+        def proper(c):
+            a, k = c['args'], c['kwds']
+            return (len(a) == 1 and isinstance(a[0], DV) and all(str(t[0]).startswith('arg') for t in tags_of(a[0])) and
+                    list(k) == ['a'] and isinstance(k['a'], DV) and all(str(t[0]).startswith('kw') for t in tags_of(k['a'])))
+        wrong = [i for i, c in enumerate(holder.get('calls') or []) if not proper(c)]
+        if not wrong:
+            raise
+        c = holder['calls'][wrong[0]]
+        rep.violation(rid('R-FORWARD'), construct, where,
+                      {'f_calls_recorded': len(holder['calls']), 'calls_with_wrong_arguments': wrong[:5],
+                       'extra_positional_arguments_received': [type(v).__name__ for v in c['args']][:3],
+                       'keywords_received': sorted(c['kwds'])[:3], 'example_site': c['stack'][-2:], 'then': str(exc)[:120]},
+                      'each call of f gets (x, *args, **kwds) of the call', label, key='forward')
+        return
     size = 1
     for sdim in shape:
         size *= sdim
